@@ -583,5 +583,6 @@ PROPS["C07"]["rule"] += " One case in three has 1..3 sibling advertising interfa
 PROPS["C12"]["rule"] += (" Live sub-check (4 000 / 400 000 cases): an advertiser with a ::/64 wildcard stanza receives the same foreign RA 2..4 times while the interface's /64 networks "
                         "change in between; the counter increments and hook calls of every reception must match the rule list applied to the own RA of that moment.")
 PROPS["C17"]["rule"] += " In one case in three every probe ends with three scrapes that overlap in time (1 ms state-read latency): each must report the same set of samples as the scrape that ran alone."
+PROPS["C17"]["rule"] += " Whole-process part, one case in three: every forwarding read of the fake OS takes 2 ms and three real HTTP GET /metrics are in flight at once; each answer must be 200 with exactly the sample set of the request that ran alone."
 PROPS["C12"]["rule"] += " Every 'inconsistency N:' log line is parsed: the (field, details) pairs named by the lines must equal the expected inconsistencies as a multiset."
 PROPS["C19"]["rule"] += " The watch ends in one of three ways: context cancelled, event source ended, event source failed (Watch must return the error and still close every channel)."
